@@ -12,6 +12,9 @@ ASSUMPTIONS = [
     "invariant is re-checked afterwards, so histories of any length are covered for this hierarchy",
     "wiring styles enumerated: Config discriminator, Annotated field (holder created before any subclass), codec (decoder created "
     "at a chosen point of the history), include_supertypes, variant_tagger_fn, non-mixin dataclasses through the codec",
+    "nested roots: QBase(type) <- QA, QBase <- QPoly (its own Config discriminator on 'kind') <- QTri; outer tag in {poly, a, zz, "
+    "absent} x inner tag in {tri, zz, absent} x (QTri defined before / after the first call): the inner root's "
+    "MissingDiscriminatorError / SuitableVariantNotFoundError must surface unchanged",
     "no-field mode: hierarchy NBase <- NA <- NC, NBase <- NB of mixin or plain dataclasses; the point at which the decoder / holder "
     "class is created (after 0..3 subclasses exist) and the point of a first call (after 0..3 subclasses, or never) are solver "
     "variables; which required keys are present and whether NA's constructor "
@@ -56,6 +59,8 @@ def harnesses(tier, seed):
                      ("annotated_plain_super", "style='annotated', mixin=False, supertypes=True"),
                      ("codec_plain_super", "style='codec', mixin=False, supertypes=True")):
         hs.append(gen.custom_harness("C12", "c12", Schema("nofield_" + name, "int", ""), "nofield", "", kw))
+    for name, kw in (("config", "style='config'"), ("annotated", "style='annotated'"), ("codec", "style='codec'")):
+        hs.append(gen.custom_harness("C12", "c12", Schema("nested_" + name, "int", ""), "nested", "", kw))
     return hs
 
 
